@@ -746,10 +746,13 @@ func asm14Engine(c *Ctx) {
 				asm14RealExec(c, op)
 			} else if strings.HasPrefix(op, "asm14 reuse ") {
 				asm14ReuseExec(c, op)
+			} else if strings.HasPrefix(op, "asm14 fileondir") {
+				asm14FileOnDir(c, op)
 			}
 		}
 		return
 	}
+	asm14FileOnDir(c, "asm14 fileondir")
 	pool := []string{"/", "/a", "/ab", "/a/b", "/a-b", "/a/b/c", "/a.b", "/b", "/data", "/data-extra", "/data/sub", "/data/sub/x", "/a b", "/a!"}
 	nPlan, nReal := 300, 14
 	if c.Tier == "thorough" {
@@ -1013,4 +1016,90 @@ func asmBusyEngine(c *Ctx) {
 	asmBusyExec(c, "asmbusy 1")
 	asmBusyExec(c, "asmbusy 2 overlay")
 	asmBusyExec(c, "asmbusy 3 upper")
+}
+
+// asm14FileOnDir: a ware that is one plain file, placed exactly where a shallower ware supplies a directory (a config
+// file replacing a conf.d/, a binary replacing a directory of that name): deeper inputs shadow what shallower ones put
+// there, in every listing order; and where nothing is there yet, and where the shallower ware already has a file.
+// Recipe: "asm14 fileondir".
+func asm14FileOnDir(c *Ctx, op string) {
+	c.Begin(op)
+	caseCounter++
+	base := filepath.Join(c.Work, fmt.Sprintf("fod%d", caseCounter))
+	defer rmrf(base)
+	whDir := filepath.Join(base, "wh")
+	os.MkdirAll(whDir, 0755)
+	os.Setenv("RIO_CACHE", filepath.Join(base, "cache"))
+	os.Setenv("RIO_BASE", filepath.Join(base, "riobase"))
+	ctx := context.Background()
+	pf := api.MustParseFilesetPackFilter(losslessPackStr)
+	os.MkdirAll(filepath.Join(base, "srcf"), 0755)
+	os.WriteFile(filepath.Join(base, "srcf", "thefile"), []byte("plain file ware"), 0644)
+	fileWare, e1 := tartrans.Pack(ctx, "tar", filepath.Join(base, "srcf", "thefile"), pf, whAddr("ca", whDir), rio.Monitor{})
+	os.MkdirAll(filepath.Join(base, "srcd", "sub", "deeper"), 0755)
+	os.WriteFile(filepath.Join(base, "srcd", "sub", "inner"), []byte("dir ware"), 0644)
+	os.WriteFile(filepath.Join(base, "srcd", "keep"), []byte("kept"), 0644)
+	os.WriteFile(filepath.Join(base, "srcd", "afile"), []byte("a file of the dir ware"), 0644)
+	dirWare, e2 := tartrans.Pack(ctx, "tar", filepath.Join(base, "srcd"), pf, whAddr("ca", whDir), rio.Monitor{})
+	c.EmitR(op, "skip", "skip")
+	if e1 != nil || e2 != nil {
+		return
+	}
+	wh := []api.WarehouseLocation{whAddr("ca", whDir)}
+	for k, at := range []string{"/sub", "/afile", "/fresh", "/sub/deeper"} {
+		for o := 0; o < 2; o++ {
+			asm, err := stitch.NewAssembler(tartrans.Unpack)
+			if err != nil {
+				return
+			}
+			root := filepath.Join(base, fmt.Sprintf("root%d%d", k, o))
+			os.MkdirAll(root, 0755)
+			specs := []stitch.UnpackSpec{
+				{Path: fs.MustAbsolutePath("/"), WareID: dirWare, Filters: api.FilesetUnpackFilter_Lossless, Warehouses: wh},
+				{Path: fs.MustAbsolutePath(at), WareID: fileWare, Filters: api.FilesetUnpackFilter_Lossless, Warehouses: wh},
+			}
+			if o == 1 {
+				specs[0], specs[1] = specs[1], specs[0]
+			}
+			var cleanup func() error
+			var rerr error
+			pan := ""
+			func() {
+				defer func() {
+					if r := recover(); r != nil {
+						pan = fmt.Sprint(r)
+					}
+				}()
+				cleanup, rerr = asm.Run(ctx, osfs.New(fs.MustAbsolutePath(root)), specs, fs.Metadata{Type: fs.Type_Dir, Perms: 0755, Mtime: time.Unix(777, 0)})
+			}()
+			c.H(fmt.Sprintf("fileondir:%s:%v", at, rerr == nil && pan == ""))
+			switch {
+			case pan != "":
+				c.PropFail("asm-panic", "a file ware placed at "+at+" of a directory ware: "+pan, op)
+			case rerr != nil:
+				c.PropFail("asm-refused-valid", fmt.Sprintf("a valid assembly (a directory ware at /, a one-file ware at %s, listing order %d) was refused: %s: %v", at, o, catOf(rerr), rerr), op)
+			default:
+				if b, e := os.ReadFile(filepath.Join(root, at)); e != nil || string(b) != "plain file ware" {
+					c.PropFail("asm-shadowing", fmt.Sprintf("the one-file ware placed at %s (listing order %d) does not show there: %v", at, o, e), op)
+				}
+				if b, e := os.ReadFile(filepath.Join(root, "keep")); e != nil || string(b) != "kept" {
+					c.PropFail("asm-shadowing", fmt.Sprintf("with a one-file ware at %s, the directory ware at / no longer shows its own /keep: %v", at, e), op)
+				}
+			}
+			if cleanup != nil {
+				cleanup()
+			}
+			unmountAllUnder(root)
+		}
+	}
+	// the shelf of the directory ware is as it was
+	shelf := filepath.Join(base, "cache", "tar", "fileset", dirWare.Hash[0:3], dirWare.Hash[3:6], dirWare.Hash)
+	for n, want := range map[string]string{"afile": "a file of the dir ware", "sub/inner": "dir ware", "keep": "kept"} {
+		if b, e := os.ReadFile(filepath.Join(shelf, n)); e != nil || string(b) != want {
+			c.PropFail("asm-escape", fmt.Sprintf("after one-file wares were placed over entries of a directory ware, that ware's cache shelf no longer holds %s as packed: %v", n, e), op)
+		}
+	}
+	if st, e := os.Lstat(filepath.Join(shelf, "sub", "deeper")); e != nil || !st.IsDir() {
+		c.PropFail("asm-escape", "after one-file wares were placed over entries of a directory ware, that ware's cache shelf no longer holds sub/deeper as a directory", op)
+	}
 }
